@@ -33,7 +33,7 @@ const c05KeyTrunc = "c05:jump-offset-truncated"
 
 func runC05(c *Ctx) {
 	r := c.R
-	r.Rule = "generated expressions (type-directed, all node kinds) x modes {Eval-like, Env struct/map, Optimize on/off, casts} x environments: compile model vs compiler.Compile byte for byte, VM model vs (*VM).Run, Lean wfStatic on every real program, Stack()/ScopeDepth() after every real run; plus generated large programs with jump offsets around 65535/65536 (?:, and/or, loop exit and backward jumps) and 65534..65537 distinct constants"
+	r.Rule = "generated expressions (type-directed, all node kinds) x modes {Eval-like, Env struct/map, Optimize on/off, casts} x environments: compile model vs compiler.Compile byte for byte, VM model vs (*VM).Run, Lean wfStatic on every real program, Program.Disassemble = the model's decoding (offsets, names, operands; no panic), Stack()/ScopeDepth() after every real run; plus generated large programs with jump offsets around 65535/65536 (?:, and/or, loop exit and backward jumps) and 65534..65537 distinct constants"
 	if c.Replay != "" {
 		if replayC05(c) {
 			return
@@ -55,6 +55,7 @@ func runC05(c *Ctx) {
 		r.Case(cs.Src+"|"+cs.Mode.String(), len(cs.Src) > 6)
 	}
 	c05WfStaticReal(c, cases)
+	c05Disassemble(c, cases)
 	lap("wfStatic on real programs")
 	res := VMCorrespondence(c, ok, 1000)
 	// programs on which the compile model disagrees are still run and observed (independent of the model)
@@ -172,6 +173,63 @@ func c05WfStaticReal(c *Ctx, cases []*Case) {
 			Expect: "wfStatic = true (decodes, operands in range and of the expected kind, jumps on boundaries, Begin/End nested)",
 			Got:    resp[i],
 		})
+	}
+}
+
+// c05Disassemble: the library's own decoder (vm/program.go Disassemble) must decode every real program into the
+// instructions the model's decoder finds: same offsets, names and operands, and it must not panic.
+func c05Disassemble(c *Ctx, cases []*Case) {
+	r := c.R
+	var lines []string
+	var idx []*Case
+	for _, cs := range cases {
+		if cs.B != nil && cs.B.Program != nil {
+			q := *cs.B.Program
+			q.Locations = nil
+			lines = append(lines, T("disasm", programSx(&q)).String())
+			idx = append(idx, cs)
+		}
+	}
+	resp, err := c.AskAll(lines)
+	if err != nil {
+		r.Mismatch("driver", "disasm", err.Error(), "")
+		return
+	}
+	for i, cs := range idx {
+		real := func() (out string) {
+			defer func() {
+				if e := recover(); e != nil {
+					out = fmt.Sprintf("(panic %v)", e)
+				}
+			}()
+			var parts []string
+			for _, ln := range strings.Split(cs.B.Program.Disassemble(), "\n") {
+				if ln == "" {
+					continue
+				}
+				f := strings.Split(ln, "\t")
+				arg := "-"
+				if len(f) > 2 {
+					arg = f[2]
+				}
+				if len(f) < 2 {
+					return "(unparsable " + ln + ")"
+				}
+				parts = append(parts, "("+f[0]+" "+f[1]+" "+arg+")")
+			}
+			return "(ok " + strings.Join(parts, " ") + ")"
+		}()
+		if len(cs.B.Program.Bytecode) == 0 {
+			real = "(ok)"
+		}
+		model := resp[i]
+		if model == "(ok )" {
+			model = "(ok)"
+		}
+		r.Count("disasm:compared", 1)
+		if model != real {
+			r.Mismatch("disasm", cs.Src+" ["+cs.Mode.String()+"]", model, real)
+		}
 	}
 }
 
